@@ -190,6 +190,18 @@ func (g *c13Gen) doc() *aNode {
 		g.allAnch, g.mapAnch = savedAll, savedMap
 		d.anchor = name
 		g.anchors[name] = d
+		if d.kind == "map" && r.IntN(3) == 0 {
+			// a scalar INSIDE the anchored map carries an anchor of its own (aliased further down)
+			for ei := range d.entries {
+				if e := d.entries[ei]; e.merge == nil && e.v != nil && e.v.kind == "scalar" && e.v.anchor == "" {
+					in := fmt.Sprintf("s%d", i+1)
+					e.v.anchor = in
+					g.anchors[in] = e.v
+					g.allAnch = append(g.allAnch, in)
+					break
+				}
+			}
+		}
 		known := false
 		for _, x := range g.allAnch {
 			if x == name {
